@@ -284,6 +284,14 @@ Proof.
   intros Ho Ef. destruct (C Ho Ef) as (HQ & N). split; [apply H; exact HQ | exact N].
 Qed.
 
+(* counting a findConflict call changes nothing the specification talks about *)
+Lemma spec_inc : forall st r Q, spec (inc_fc st) r Q -> spec st r Q.
+Proof.
+  intros st r Q Sp Ps. destruct (Sp Ps) as (P & (E1 & E2 & E3) & C). split; [exact P|]. split.
+  - split; [exact E1|]. split; [exact E2 | exact E3].
+  - intros Ho Ef. destruct (C Ho Ef) as (HQ & (N1 & N2)). split; [exact HQ|]. split; assumption.
+Qed.
+
 Lemma spec_app : forall st c1 st1 c2 st2 (Q1 Q2 : mst -> Prop),
   (forall V V', ext V V' -> Q1 V -> Q1 V') ->
   spec st (c1, st1) Q1 -> spec st1 (c2, st2) Q2 ->
@@ -333,12 +341,13 @@ Proof.
   split; [|split; [|split; [|split]]].
   - (* fc *)
     intros fl a b sa sb st Hsa Hsb Ha Hb. simpl.
+    apply spec_inc.
     destruct (negb (base (fl || excl S a b) a b)) eqn:Eb; [apply spec_fail|].
     apply negb_false_iff in Eb.
     destruct (has_sub a && has_sub b) eqn:Eh.
-    + pose proof (Isub (fl || excl S a b) (sub_pt a, fe_sub a) (sub_pt b, fe_sub b) st
+    + pose proof (Isub (fl || excl S a b) (sub_pt a, fe_sub a) (sub_pt b, fe_sub b) (inc_fc st)
                        (DS_sub sa a Hsa Ha) (DS_sub sb b Hsb Hb)) as Sp.
-      destruct (Overlap.subsets S D true f (fl || excl S a b) (sub_pt a, fe_sub a) (sub_pt b, fe_sub b) st) as [cs st'].
+      destruct (Overlap.subsets S D true f (fl || excl S a b) (sub_pt a, fe_sub a) (sub_pt b, fe_sub b) (inc_fc st)) as [cs st'].
       intros Ps. destruct (Sp Ps) as (P & E & C). simpl in *.
       split; [exact P|]. split; [exact E|]. intros Ho Ef.
       destruct cs as [|c cs]; [|discriminate]. destruct (C Ho eq_refl) as (HQ & N).
@@ -695,9 +704,9 @@ Proof.
   split; [|split; [|split; [|split]]].
   - (* fc *) intros fl a b sa sb st Hsa Hsb Ha Hb H. inversion H as [fl' a' b' Hbase Hs]; subst. simpl.
     rewrite Hbase. simpl. destruct (has_sub a && has_sub b) eqn:E; [|reflexivity].
-    pose proof (Isub (fl || excl S a b) (sub_pt a, fe_sub a) (sub_pt b, fe_sub b) st
+    pose proof (Isub (fl || excl S a b) (sub_pt a, fe_sub a) (sub_pt b, fe_sub b) (inc_fc st)
                      (DS_sub sa a Hsa Ha) (DS_sub sb b Hsb Hb) (Hs eq_refl)) as R.
-    destruct (Overlap.subsets S D false f (fl || excl S a b) (sub_pt a, fe_sub a) (sub_pt b, fe_sub b) st) as [cs st'].
+    destruct (Overlap.subsets S D false f (fl || excl S a b) (sub_pt a, fe_sub a) (sub_pt b, fe_sub b) (inc_fc st)) as [cs st'].
     simpl in R. subst cs. reflexivity.
   - (* between *) intros fl s1 s2 l1 l2 st H1 H2 I1 I2 H. simpl.
     apply seq_nil. intros k st1 _. apply seq_nil. intros a st2 Ha. apply seq_nil. intros b st3 Hb.
